@@ -314,8 +314,9 @@ theorem inv_makeBackupFor (hF : Framed I) {o : Options} {p : Bytes} (h : PathOk 
   split
   · rw [run_bind, run_set]
     dsimp only
-    have : Inv I (do if (← fsExists p) then opRename p (backupName o p) else opCreat (backupName o p)) := by
-      dm_walk [inv_fsExists _, inv_opRename hF hr, inv_opCreat hF h]
+    have : Inv I (do ensureParentDirs (backupName o p)
+                     if (← fsExists p) then opRename p (backupName o p) else opCreat (backupName o p)) := by
+      dm_walk [inv_ensureParentDirs hF h, inv_fsExists _, inv_opRename hF hr, inv_opCreat hF h]
     exact this.out _ (hF.frame s _ hs rfl rfl rfl rfl rfl rfl rfl)
   · exact hs
 theorem inv_makeWritable (hF : Framed I) {p : Bytes} (h : PathOk I p) (perm : PermResult) : Inv I (makeWritable perm p) := by
@@ -335,10 +336,23 @@ theorem inv_fixPermissionsIfNeeded (hF : Framed I) (o : Options) (out : Bytes) :
   unfold fixPermissionsIfNeeded
   dm_walk [inv_fsGetPerms _, inv_emit hF _]
 
+/-- `set` of a state that differs from a state with the invariant only in fields the invariant does not read -/
+theorem inv_set_framed (hF : Framed I) {s s' : DState} (hs : I s) (h1 : s'.fs = s.fs) (h2 : s'.trace = s.trace)
+    (h3 : s'.cwd = s.cwd) (h4 : s'.sections = s.sections) (h5 : s'.dWrites = s.dWrites) (h6 : s'.dRemovals = s.dRemovals)
+    (h7 : s'.faultAt = s.faultAt) : Inv I (set s' : DM PUnit) :=
+  ⟨fun _ _ => hF.frame s s' hs h1 h2 h3 h4 h5 h6 h7⟩
+
+theorem inv_openRejects (hF : Framed I) {rej : Bytes} (h : PathOk I rej) : Inv I (openRejects rej) := by
+  unfold openRejects
+  dm_walk [inv_fsExists _, inv_opCreat hF h, inv_set_framed hF ?_ rfl rfl rfl rfl rfl rfl rfl]
+  next s hs _ => exact hF.frame s _ hs rfl rfl rfl rfl rfl rfl rfl
+theorem inv_writeRejects (hF : Framed I) {rej : Bytes} (h : PathOk I rej) (b : Bytes) : Inv I (writeRejects rej b) := by
+  unfold writeRejects; dm_walk [inv_openRejects hF h, inv_opWrite hF h _]
+
 theorem inv_refuseToPatch (hF : Framed I) {o : Options} {out : Bytes} (h : o.dryRun = false → PathOk I (rejectPath o out))
     (p : Patch) : Inv I (refuseToPatch o out p) := by
   unfold refuseToPatch
-  dm_walk [inv_emit hF _, inv_ensureParentDirs hF (h ?_), inv_opCreat hF (h ?_), inv_opWrite hF (h ?_) _]
+  dm_walk [inv_emit hF _, inv_ensureParentDirs hF (h ?_), inv_openRejects hF (h ?_), inv_opWrite hF (h ?_) _]
   all_goals simp_all
 end generic
 
@@ -357,7 +371,7 @@ structure SecOk (I : DState → Prop) (o : Options) (ftp out : Bytes) : Prop whe
   pBak : PathOk I (backupName o out)
   ren : RenameOk I out (backupName o out)
   defW : ∀ w : DeferredWrite, w.dest = out → Stable I (fun s => { s with dWrites := s.dWrites ++ [w] })
-  defR : Stable I (fun s => { s with dRemovals := s.dRemovals ++ [ftp] })
+  defR : ∀ b : Bool, Stable I (fun s => { s with dRemovals := s.dRemovals ++ [(ftp, b)] })
 
 theorem inv_processSection {I : DState → Prop} {I' : Bytes → Bytes → DState → Prop} {o : Options} (format : Format)
     (hF : Framed I) (hF' : ∀ a b, Framed (I' a b)) (hct : ∀ a b, Inv (I' a b) createTemp)
@@ -374,12 +388,12 @@ theorem inv_processSection {I : DState → Prop} {I' : Bytes → Bytes → DStat
     inv_fixPermissionsIfNeeded (hF' _ _) _ _,
     inv_ensureParentDirs (hF' _ _) (hlive ?_ _ _).pRej,
     inv_ensureParentDirs (hF' _ _) (hlive ?_ _ _).pOut,
-    inv_writeFile (hF' _ _) (hlive ?_ _ _).pRej _,
+    inv_writeRejects (hF' _ _) (hlive ?_ _ _).pRej _,
     inv_makeBackupFor (hF' _ _) (hlive ?_ _ _).pBak (hlive ?_ _ _).ren,
     inv_removeFileAndEmptyParents (hF' _ _) (hlive ?_ _ _).pOut,
     inv_removeFileAndEmptyParents (hF' _ _) (hlive ?_ _ _).pFtp,
     inv_writePatchedResult (hF' _ _) (hlive ?_ _ _).pOut (hlive ?_ _ _).pBak (hlive ?_ _ _).ren (hlive ?_ _ _).defW _ _ _ _,
-    inv_modify (hlive ?_ _ _).defR]
+    inv_modify ((hlive ?_ _ _).defR _)]
   all_goals simp_all
 
 theorem inv_sectionLoop {I : DState → Prop} {o : Options} {format : Format} (h : Inv I (processSection o format)) :
@@ -394,14 +408,17 @@ theorem inv_sectionLoop {I : DState → Prop} {o : Options} {format : Format} (h
 theorem tr_finalizeDeferred {P Q : DState → Prop} {o : Options}
     (h : ∀ s0, P s0 → ∃ I : DState → Prop, Framed I ∧ I s0 ∧
       (∀ w ∈ s0.dWrites, PathOk I w.dest ∧ PathOk I (backupName o w.dest) ∧ RenameOk I w.dest (backupName o w.dest)) ∧
-      (∀ p ∈ s0.dRemovals, PathOk I p) ∧ ∀ s, I s → Q s) : Tr P (finalizeDeferred o) Q := by
+      (∀ p ∈ s0.dRemovals, PathOk I p.1 ∧
+        (p.2 = true → PathOk I (backupName o p.1) ∧ RenameOk I p.1 (backupName o p.1))) ∧ ∀ s, I s → Q s) :
+    Tr P (finalizeDeferred o) Q := by
   unfold finalizeDeferred
   refine tr_get_bind (fun s0 hs0 => ?_)
   obtain ⟨I, hF, hI, hw, hr, hQ⟩ := h s0 hs0
   refine tr_weaken (P' := I) (Q' := I) ?_ (fun s hs => hs ▸ hI) hQ
   dm_walk [inv_ensureParentDirs hF (hw _ ?_).1, inv_writeFile hF (hw _ ?_).1 _, inv_permissionCallback hF (hw _ ?_).1 _ _,
     inv_makeWritable hF (hw _ ?_).1 _, inv_makeBackupFor hF (hw _ ?_).2.1 (hw _ ?_).2.2,
-    inv_removeFileAndEmptyParents hF (hr _ ?_)]
+    inv_removeFileAndEmptyParents hF (hr _ ?_).1, inv_makeBackupFor hF ((hr _ ?_).2 ?_).1 ((hr _ ?_).2 ?_).2,
+    inv_fsExists _]
 
 /-- `process_patch`: `P` at the start (also after `-d`), `I` from then on -/
 theorem tr_processPatchM {P I : DState → Prop} {o : Options} (hF : Framed I)
